@@ -23,7 +23,8 @@ DEADLINE = 400
 CHUNK = 2
 RULE = ("cases = call-DAGs from vlib.daggen (VERIF_SEED) x a random subset of functions with cache=True x cache types "
         "{simple, lru, hybrid, disk}; a generated history of <= 12 operations (pipeline(...) with root-only and "
-        "intermediate-supplying keyword sets over a 2-3 value alphabet per root so that keys recur, run(full_output=True), "
+        "intermediate-supplying keyword sets over a 2-3 value alphabet per root so that keys recur - strings, or for every third case "
+        "numpy arrays incl. a transposed view and an equal Fortran-ordered copy -, run(full_output=True), "
         "update_defaults, update_bound, replace) is applied to the cached pipeline and to an uncached twin; every immediately "
         "repeated root-complete call must not re-execute cached functions; map part = MapSpec pipelines with cache=True "
         "functions and inputs with repeated values, sequential / thread pool / process pool sharing the cache, compared with "
@@ -61,10 +62,16 @@ def build(case, log, cached, cache_type, scratch, tag, prefix=""):
     return Pipeline(fs, **kw)
 
 
-def gen_history(case, rng, length):
+def gen_history(case, rng, length, arrays=False):
     outs = daggen.all_outputs(case)
     hist = []
     alpha = {r: [f"{r}u", f"{r}v"] for r in case["roots"]}
+    if arrays:
+        # array-valued arguments: a square matrix, its transposed VIEW (same buffer, same shape, other content) and an
+        # equal Fortran-ordered copy - equal arguments must hit, unequal ones must not
+        for n, r in enumerate(case["roots"]):
+            a = np.arange(4).reshape(2, 2) + 10 * n
+            alpha[r] = [a, a.T, np.asfortranarray(a)]
     for _ in range(length):
         x = rng.random()
         if x < 0.70 or not hist:
@@ -102,6 +109,7 @@ def possible_values(case, out, K, states, cap=600):
     pipeline states (defaults, bound, prefix) - i.e. what a cache that is never invalidated by mutations can serve."""
     import itertools
 
+    K = {k: (x if isinstance(x, str) else probes.render(x)) for k, x in K.items()}  # as the probes render arguments
     memo = {}
 
     def vals(name):
@@ -256,7 +264,9 @@ def run_hist(v, desc, scratch, keys):
         names = [f["name"] for f in case["funcs"]]
         for h in range(desc["hists"]):
             cached = {n for n in names if rng.random() < 0.6} or {names[-1]}
-            hist = gen_history(case, rng, rng.randint(4, 12))
+            hist = gen_history(case, rng, rng.randint(4, 12), arrays=(i % 3 == 0))
+            if i % 3 == 0:
+                v.count("histories_with_array_arguments")
             for ct in CACHE_TYPES:
                 w = dict(case=daggen.describe(case), cached=sorted(cached), cache_type=ct)
                 hits = apply_history(v, case, hist, cached, ct, scratch, f"{i}-{h}-{ct}", w)
@@ -360,6 +370,8 @@ def finalize(agg, tier, seed):
         floors.append("fewer than 200 histories mixing root-only and intermediate-supplying calls")
     if c.get("histories_with_mutation", 0) < 200:
         floors.append("fewer than 200 histories with a mutation")
+    if c.get("histories_with_array_arguments", 0) < 100:
+        floors.append("fewer than 100 histories with array-valued arguments")
     if c.get("immediate_repeats", 0) < 500:
         floors.append("fewer than 500 immediate repeats")
     if c.get("map_cache_hits_observed", 0) < 100:
